@@ -339,7 +339,7 @@ def _process_metastable_element_str(metastable_element_str: str) -> Tuple[str, s
     # metastable_element_str is 1 or 2 chars: assume metastable if first char is lower case and a
     # valid metastable state char, second char is uppercase and a valid element symbol
     if (
-        metastable_element_str[0] in get_metastable_chars()
+        metastable_element_str[:1] in get_metastable_chars()
         and metastable_element_str[1:] in SYM_DICT
     ):
         return metastable_element_str[0], metastable_element_str[1:]
